@@ -91,6 +91,15 @@ PROVED = {
          "Hypothesis: the re-encoding's sizes stay below 2^56-1 and the reader's size limit. Restricted to documents (streams read without error "
          "from a root element) with placeholder-free declared paths; global elements, mid-stream errors and reader/writer validator agreement on "
          "arbitrary accepted streams are covered by the correspondence run (read-write-read on mutated/hand-crafted streams).", ""),
+ "C06": ("Theorems (Proofs/Nesting.v): C06_strict_items_well_nested — for every strict configuration (unknown ids and hierarchy errors not tolerated, "
+         "nothing buffered), every byte input and every sequence of next()/try_recover()/drain operations, the successfully emitted tags are accepted "
+         "by an independent checker started from some base chain (empty when reading from a root; the implied ancestors of the first placeholder-free "
+         "element otherwise): every End closes the most recent unmatched Start or an implied ancestor, every Start/element has an id known to the "
+         "specification and, once the position is determined, its declared path matches exactly the chain of open masters; C06_eof_closes_all — when "
+         "the run ends with None every opened master and implied ancestor has received its End. The reader is shown to maintain 'checker state = own "
+         "stack' across header seeding, pops, errors and recoveries. PARTIAL: byte-range containment in known-size masters and End-at-exhaustion "
+         "timing are not proved here (exact for conforming documents via C01_reader_roundtrip_partial); they are judged on every run by the independent "
+         "nesting/path/extent checker of the correspondence harness.", ""),
  "C07": ("Theorems: the closing rule (count_ended = the largest k such that the k innermost open masters have unknown size and the outermost of them is "
          "ended by the element; nothing closes below a known-size master); C07_items_partial / C07_encoding_choices_irrelevant_partial: every conforming "
          "document reads as its items with each unknown-size master's End right before the next element outside of it or at the end of input, so two "
